@@ -63,4 +63,70 @@ Section Seq.
     - congruence.
     - congruence.
   Qed.
+  (** Pattern changes interleaved with checkouts, any sequence: every call succeeds, the tree is
+      the one checked out last, the patterns are the ones set last, and the disk is exactly that
+      tree inside those patterns plus the untracked entries. *)
+  Definition good_tree (t : tree) : Prop :=
+    tok rn t /\ nodup_paths (keys t) = true /\ flat_ok t.
+
+  Theorem run_ops_clean : forall ops w u f,
+    (forall t, In t (wc_tree w :: trees_of ops) -> good_tree t) ->
+    uokp rn u (flat_map keys (wc_tree w :: trees_of ops)) ->
+    models (restrict (matches (wc_sparse w)) (wc_tree w)) u f ->
+    let '(rs, f', w') := run_ops rn f w ops in
+    Forall (fun r => exists st, r = ROk st /\ n_skipped st = 0%N) rs /\ length rs = length ops
+    /\ wc_tree w' = final_tree ops (wc_tree w) /\ wc_sparse w' = final_sparse ops (wc_sparse w)
+    /\ models (restrict (matches (wc_sparse w')) (wc_tree w')) u f'.
+  Proof.
+    induction ops as [|op ops IH]; intros w u f Hg Hu Hm.
+    - cbn [run_ops final_tree final_sparse length]. repeat split; [constructor|exact Hm].
+    - cbn [run_ops].
+      destruct (Hg (wc_tree w) (or_introl eq_refl)) as (Ht & Hn & Hf).
+      destruct op as [t|ps].
+      + (* checkout *)
+        destruct (Hg t) as (Ht2 & Hn2 & Hf2); [right; left; reflexivity|].
+        assert (Hu1 : uokp rn u (keys (restrict (matches (wc_sparse w)) (wc_tree w))
+                                 ++ keys (restrict (matches (wc_sparse w)) t))).
+        { apply (uokp_incl rn u _ _ Hu). intros p Hp. cbn [trees_of flat_map].
+          apply in_app_or in Hp. destruct Hp as [Hp|Hp]; apply keys_restrict_sub in Hp.
+          - apply in_or_app. left. exact Hp.
+          - apply in_or_app. right. apply in_or_app. left. exact Hp. }
+        pose proof (check_out_clean rn w t u f (tok_restrict rn _ _ Ht) (tok_restrict rn _ _ Ht2)
+                      Hf Hu1 Hm) as Hc.
+        cbv zeta in Hc.
+        destruct (check_out rn f w t) as [o w1].
+        destruct Hc as ((st & Hr & Hsk) & Hm1 & Ht1 & Hs1).
+        specialize (IH w1 u (o_fs o)). rewrite Ht1, Hs1 in IH.
+        assert (Hg1 : forall t', In t' (t :: trees_of ops) -> good_tree t').
+        { intros t' Hin. apply Hg. right. exact Hin. }
+        assert (Hu2 : uokp rn u (flat_map keys (t :: trees_of ops))).
+        { apply (uokp_incl rn u _ _ Hu). intros p Hp. cbn [trees_of flat_map].
+          apply in_or_app. right. exact Hp. }
+        specialize (IH Hg1 Hu2 Hm1).
+        destruct (run_ops rn (o_fs o) w1 ops) as [[rs f'] w'].
+        destruct IH as (Hall & Hlen & Hft & Hfs & Hmm).
+        cbn [final_tree final_sparse length]. repeat split.
+        * constructor; [exists st; split; assumption|exact Hall].
+        * rewrite Hlen. reflexivity.
+        * exact Hft.
+        * exact Hfs.
+        * exact Hmm.
+      + (* set_sparse_patterns *)
+        assert (Hu1 : uokp rn u (keys (wc_tree w))).
+        { apply (uokp_incl rn u _ _ Hu). intros p Hp. cbn [flat_map].
+          apply in_or_app. left. exact Hp. }
+        pose proof (set_sparse_clean rn w ps u f Ht Hn Hf Hu1 Hm) as Hc.
+        destruct (set_sparse rn f w ps) as [o w1].
+        destruct Hc as (Hr & Hm1 & Ht1 & Hs1).
+        specialize (IH w1 u (o_fs o)). rewrite Ht1, Hs1 in IH.
+        cbn [trees_of] in Hg, Hu. specialize (IH Hg Hu Hm1).
+        destruct (run_ops rn (o_fs o) w1 ops) as [[rs f'] w'].
+        destruct IH as (Hall & Hlen & Hft & Hfs & Hmm).
+        cbn [final_tree final_sparse length]. repeat split.
+        * constructor; [eexists; split; [exact Hr|reflexivity]|exact Hall].
+        * rewrite Hlen. reflexivity.
+        * exact Hft.
+        * exact Hfs.
+        * exact Hmm.
+  Qed.
 End Seq.
